@@ -49,7 +49,13 @@ func vSetField(msgv reflect.Value, gmn MesgNum, sindex int, choice bool) vSet {
 		if choice {
 			x = vU32()
 			vAssume(x >= 100000 && x <= 0xFFFFFFFE-100000)
-			off = vInt(-14*3600, 14*3600)
+			if vParam("symoff") == 1 {
+				off = vInt(-14*3600, 14*3600)
+			} else {
+				// representative zone offsets, case-split (whole hours, half
+				// and quarter hours, odd seconds, extremes)
+				off = vZoneOffsets[vConcretize(vInt(0, len(vZoneOffsets)-1))]
+			}
 		}
 		fv.Set(reflect.ValueOf(decodeDateTime(x).In(time.FixedZone("VZ", off))))
 		out.elems = []uint64{uint64(uint32(int64(x) + int64(off)))}
@@ -164,6 +170,8 @@ func vSetField(msgv reflect.Value, gmn MesgNum, sindex int, choice bool) vSet {
 	out.elems = []uint64{v}
 	return out
 }
+
+var vZoneOffsets = [...]int{0, 3600, -3600, 19800, 20700, -12600, 34200, 50400, -43200, 1, -1, 4321, -86399 / 2}
 
 type vDefField struct {
 	num, size byte
